@@ -9,6 +9,7 @@ package main
 // A report is a concrete mixture of two different units.
 
 import (
+	"go/constant"
 	"reflect"
 	"fmt"
 	"go/token"
@@ -552,7 +553,11 @@ func (e *unitsEngine) flowCall(f *ssa.Function, x *ssa.Call, reporting bool, upd
 				switch t := x.Call.Args[0].Type().Underlying().(type) {
 				case *types.Basic:
 					if t.Info()&types.IsString != 0 {
-						upd(x, uByte)
+						if asciiConstString(x.Call.Args[0], 0) {
+							upd(x, uNone) // an ASCII literal: bytes, runes and UTF-16 units coincide
+						} else {
+							upd(x, uByte)
+						}
 					}
 				case *types.Slice:
 					switch types.TypeString(t.Elem(), nil) {
@@ -876,4 +881,49 @@ func firstNonConst(v ssa.Value) ssa.Value {
 		return bin.Y
 	}
 	return v
+}
+
+// asciiConstString: the string is one of finitely many ASCII constants (a literal, a phi of literals, or the
+// result of a module function every return statement of which yields such a string).
+func asciiConstString(v ssa.Value, depth int) bool {
+	if depth > 3 {
+		return false
+	}
+	switch x := v.(type) {
+	case *ssa.Const:
+		if x.Value == nil || x.Value.Kind() != constant.String {
+			return false
+		}
+		for _, r := range constant.StringVal(x.Value) {
+			if r >= 0x80 {
+				return false
+			}
+		}
+		return true
+	case *ssa.Phi:
+		for _, e := range x.Edges {
+			if !asciiConstString(e, depth+1) {
+				return false
+			}
+		}
+		return true
+	case *ssa.Call:
+		cal := x.Call.StaticCallee()
+		if cal == nil || cal.Blocks == nil || !inModule(cal) || cal.Signature.Results().Len() != 1 {
+			return false
+		}
+		n := 0
+		for _, b := range cal.Blocks {
+			for _, ins := range b.Instrs {
+				if r, ok := ins.(*ssa.Return); ok {
+					n++
+					if !asciiConstString(unspillResult(r.Results[0], b), depth+1) {
+						return false
+					}
+				}
+			}
+		}
+		return n > 0
+	}
+	return false
 }
